@@ -36,6 +36,7 @@ def rand_params(rng, big=False):
 
 # ------------------------------------------------------------------ trace parsing
 TX = re.compile(r"^tx@(\d+):(\d+):([CNAR]):(\d+):(.)$")
+TXF = re.compile(r"^txf@(\d+):(\d+):([CNAR]):(\d+):(.)$")      # a write attempt that failed in the socket (fate `x`)
 NACK = re.compile(r"^(nackx?)@(\d+):(\d+):(\w+):(\d+)$")
 W = re.compile(r"^w@(\d+)=(\d+)/(\d+)$")
 SUB = re.compile(r"^sub=(\w+)$")
@@ -124,7 +125,9 @@ def walk(line, itoks):
 
 
 def oracle_c06(line, itoks):
-    """C06 on the trace of I alone.  Returns why (string) or None."""
+    """C06 on the trace of I alone.  Returns why (string) or None.
+    A write attempt that failed in the socket (`txf@`, fate `x`) is, for the schedule and the retransmission count, a
+    transmission like any other: the datagram is lost one hop earlier."""
     sess, fates, evs, steps = walk(line, itoks)
     if len(steps) != len(evs):
         return None      # crashed / truncated: handled elsewhere
@@ -136,13 +139,27 @@ def oracle_c06(line, itoks):
     subs = {}
     for e in evs:
         f = e.split(":")
-        if f[0] == "s":
+        if f[0] in ("s", "S"):
             subs[(int(f[1]), int(f[3]))] = subs.get((int(f[1]), int(f[3])), 0) + 1
+    accepted = []            # Confirmables coap_send() accepted, in order: (session, mid)
+    arrivals = {}            # (session, mid) -> a reply of the peer (ACK / RST / response with its token) is ever delivered
+    last_arrival = 0
+    nfate = 0
     for ev, ts, dump in steps:
+        f = ev.split(":")
+        if f[0] in ("s", "S") and f[2] == "c" and any(SUB.match(t) and t != "sub=rej" for t in ts):
+            accepted.append((int(f[1]), int(f[3])))
         for t in ts:
-            m = TX.match(t)
+            m = TX.match(t) or TXF.match(t)
             if m:
                 tm, s, kind, mid, same = int(m.group(1)), int(m.group(2)), m.group(3), int(m.group(4)), m.group(5)
+                # the scripted peer: the k-th datagram handed to the socket meets the k-th fate
+                fate = fates[nfate] if nfate < len(fates) else "d"
+                nfate += 1
+                if fate[0] in "aArR" and not (fate[0] in "aA" and kind != "C") and not t.startswith("txf@"):
+                    for d in fate[1:].split("+"):
+                        arrivals[(s, mid)] = True
+                        last_arrival = max(last_arrival, tm + int(d))
                 if same != "=":
                     return "retransmission of message %d on session %d is not byte-identical to its first transmission" % (mid, s)
                 if kind == "C" and subs.get((s, mid), 0) == 1:
@@ -182,7 +199,78 @@ def oracle_c06(line, itoks):
             if ts[j + 1] - ts[j] != T * 2 ** j:
                 return "retransmission %d of message %d comes %d ms after the previous one, expected %d (T=%d doubled %d times)" % (
                     j + 1, mid, ts[j + 1] - ts[j], T * 2 ** j, T, j)
+    return c06_end_of_run(sess, evs, steps, accepted, arrivals, last_arrival, subs, txs, outcome)
+
+
+def c06_end_of_run(sess, evs, steps, accepted, arrivals, last_arrival, subs, txs, outcome):
+    """"Every Confirmable accepted for sending is transmitted … and ends in exactly one outcome", judged where the trace
+    of I alone can decide it: the run ends with an I/O step at which the library reports NOTHING pending (wait 0, empty
+    send queue) and every reply the scripted peer ever sent has been delivered.  From there on nothing will happen any
+    more, so every accepted Confirmable - one that was held back by NSTART included - must be concluded: a message for
+    which no ACK / RST / response ever arrived can only have been concluded by a NACK-handler call."""
+    if not steps or any(e.split(":")[0] in ("i", "k") for e in evs):
+        return None
+    ev, ts, (ca, dq, q) = steps[-1]
+    if ev.split(":")[0] not in ("g", "n", "t"):
+        return None
+    ws = [W.match(t) for t in ts if t.startswith("w@")]
+    if not ws or ws[-1] is None:
+        return None
+    tend, ms, e = int(ws[-1].group(1)), int(ws[-1].group(2)), int(ws[-1].group(3))
+    if ms != 0 or e != 0 or q or last_arrival > tend:
+        return None
+    est = [True] * len(sess)
+    tok = {}
+    for x in evs:
+        f = x.split(":")
+        if f[0] == "h" and int(f[1]) < len(sess):
+            est[int(f[1])] = False
+        elif f[0] in ("u", "f") and int(f[1]) < len(sess):
+            est[int(f[1])] = True
+        elif f[0] == "s":
+            tok[(int(f[1]), int(f[3]))] = int(f[3])
+        elif f[0] == "S":
+            tok[(int(f[1]), int(f[3]))] = int(f[5])
+    for x in evs:
+        f = x.split(":")
+        if f[0] in ("a", "r", "b"):
+            arrivals[(int(f[1]), int(f[2]))] = True
+        elif f[0] == "o":
+            for (s, mid), tk in tok.items():
+                if s == int(f[1]) and tk == int(f[3]):
+                    arrivals[(s, mid)] = True
+    for (s, mid) in accepted:
+        if subs.get((s, mid), 0) != 1 or s >= len(sess) or not est[s]:
+            continue
+        if (s, mid) in outcome or (s, mid) in arrivals:
+            continue
+        n = len(txs.get((s, mid), []))
+        return ("Confirmable %d of session %d was accepted by coap_send(), %s, and ends without any outcome: no NACK-handler "
+                "call, no ACK / RST / response for it ever arrived, yet at t=%d the library reports nothing pending (wait 0, "
+                "empty send queue%s)" % (mid, s, "was never transmitted" if n == 0 else "was handed to the socket %d time(s)" % n, tend,
+                                         ", %d message(s) left in the session's delay queue" % dq[s] if s < len(dq) and dq[s] else ""))
+    for s in range(len(sess)):
+        waiting = [m for (s2, m) in accepted if s2 == s and subs.get((s, m), 0) == 1 and not txs.get((s, m)) and (s, m) not in outcome]
+        if est[s] and s < len(dq) and dq[s] > 0 and waiting:
+            return ("at t=%d the library reports nothing pending (wait 0, empty send queue) but established session %d still holds "
+                    "%d accepted message(s) in its delay queue: they will never be transmitted" % (tend, s, dq[s]))
     return None
+
+
+def failed_non_drain_sessions(line, itoks):
+    """sessions on which the socket write of a NON-confirmable taken out of the delay queue failed (fate `x`) while no
+    Confirmable of the session was in flight, leaving messages in the delay queue: the input class of the open finding
+    `drain_break_strands_delayed` (coap_session_connected: `if (bytes_written < 0) break;`)"""
+    sess, fates, evs, steps = walk(line, itoks)
+    out = set()
+    for ev, ts, (ca, dq, q) in steps:
+        for t in ts:
+            m = TXF.match(t)
+            if m and m.group(3) != "C":
+                s = int(m.group(2))
+                if s < len(dq) and dq[s] > 0 and s < len(ca) and ca[s] == 0:
+                    out.add(s)
+    return out
 
 
 def oracle_c08(line, itoks):
